@@ -177,7 +177,20 @@ def main():
                 ev["invs"] = []
                 if mem is not None:
                     for inv in mem.invocation_metadata.invocations:
-                        ev["invs"].append([inv.fn_reference.qualified_name, bool(inv.fn_reference.external)])
+                        ref = inv.fn_reference
+                        stub_ok = True
+                        if ref.external:
+                            # the stub standing for a function that is no longer there names exactly what was recorded: its version is
+                            # the version part of the recorded name, and references derived from it keep that name
+                            try:
+                                sf = ref.memento_fn
+                                v = sf.version()
+                                stub_ok = (sf.fn_reference().qualified_name == ref.qualified_name
+                                           and (ref.qualified_name == sf.qualified_name_without_version + ("" if v is None else "#" + v))
+                                           and sf.partial().fn_reference().qualified_name == ref.qualified_name)
+                            except Exception:
+                                stub_ok = False
+                        ev["invs"].append([ref.qualified_name, bool(ref.external), stub_ok])
                 ev["nlisted"] = len(fn.list_mementos())
                 ev["others"] = []
                 for other in op.get("also", []):          # listings of the other functions of the program must work too
